@@ -124,4 +124,32 @@ var specs = []CheckSpec{
 		Assumptions: append([]string{"SHA-256 is modelled as an injective function onto a fixed pool of digests: the solver decides (in)equality of hashed inputs; other bit patterns of digests are not explored", "file-system operations are atomic and behave as the vfs model documents (POSIX-like)"}, commonAssumptions...),
 		Outside:     []string{"more than two action IDs / three operations", "index entries differing from a valid entry in more than 2 non-adjacent places (except the OutputID field, fully arbitrary)", "GODEBUG gocacheverify mode"},
 	},
+	{
+		ID: "C12", Pkg: "cache",
+		Harnesses: []HarnessSpec{
+			{Fn: "VerifC12FileFault", Quick: map[string]int{"L": 2}, Thorough: map[string]int{"L": 3}, Witness: []string{"crash", "fault", "fault-hit", "put-reported-error", "overwrite-same-content", "overwrite-different-content", "after-getbytes-hit", "after-getbytes-miss", "after-getfile-hit"}},
+			{Fn: "VerifC12Reader", Quick: map[string]int{"L": 2}, Thorough: map[string]int{"L": 3}, Witness: []string{"reader-fails", "seek-fails", "second-pass-shorter", "second-pass-differs", "put-reported-error"}},
+			{Fn: "VerifC12PreDamaged", Quick: map[string]int{"L": 2}, Thorough: map[string]int{"L": 3}, Witness: []string{"repaired-predamaged"}},
+		},
+		Bounds: map[string]string{
+			"quick":    "Put of <= 2 symbolic bytes over three starting states (no entry / same content / different content) plus an unrelated complete entry; one crash point after any number of Put's file operations, or one failing file operation at any index (a failing write leaves any prefix for short buffers, representative prefixes incl. every field boundary for the 175-byte index entry); source reader failing at any offset in either pass, failing Seek, shorter or different second pass; pre-damaged output files of any length <= 3 with a crash at any point",
+			"thorough": "data <= 3 bytes",
+		},
+		Stubs: []string{"as C05"},
+		Assumptions: append([]string{"a crash is modelled as: every file operation up to the crash point took full effect, none after it did (operations are atomic; a torn single write is the subject of C11)", "SHA-256 as injective pool-digest model (see C05)"}, commonAssumptions...),
+		Outside:     []string{"two faults in one Put", "data larger than the 32 KiB copy buffer (several writes per copy)", "real SIGKILL of a writing process"},
+	},
+	{
+		ID: "C13", Pkg: "cache",
+		Harnesses: []HarnessSpec{
+			{Fn: "VerifC13Trim", Quick: map[string]int{"E": 1, "LK": 1}, Thorough: map[string]int{"E": 2, "LK": 1}, Witness: []string{"due", "not-due", "stale-removed", "lookup-before-trim", "trim-record-missing", "trim-record-digits", "trim-record-corrupt", "trim-record-unreadable"}},
+		},
+		Bounds: map[string]string{
+			"quick":    "one cache subdirectory with <= 1 file from an 8-name template (entry names with -a/-d suffix, trim.txt, README, x-b, -a, fuzz, a1-ab) with a symbolic modification time within +-20 days of now; last-trim record missing / unreadable / 6 corrupt forms / 10 decimal digits of which the last 6 are symbolic (+-11 days around now at second resolution), optionally blank-padded; <= 1 preceding lookup at a symbolic earlier time through the real used(); now fixed to 1700000000 (all comparisons are on differences)",
+			"thorough": "<= 2 files per subdirectory",
+		},
+		Stubs: []string{"as C05, plus syscall.Flock (always succeeds) under lockedfile.Read/Write", "(time.Time).Sub on symbolic whole-second times: modelled as delta*1e9 under the path assumption |delta| < 2^33 s, with comparisons against constants rewritten to comparisons of delta (see symx/timemodel.go)"},
+		Assumptions: append([]string{"times are whole seconds within +-20 days of now (no Duration saturation)", "queries the incremental solver does not decide in 1.5 s (ParseInt overflow checks on symbolic digits) are decided by a stand-alone portfolio (z3 4.8.12, z3 5.1.0, cvc5), 120 s cap"}, commonAssumptions...),
+		Outside:     []string{"more than two files per subdirectory; interplay between subdirectories (the other 255 are empty)", "last-trim records in the future: only the safety clauses are asserted", "sub-second timestamps"},
+	},
 }
